@@ -35,6 +35,9 @@ type sdbOp struct {
 type c03aCase struct {
 	Ops    []sdbOp `json:"ops"`
 	Commit bool    `json:"commit"`
+	// Order seeds the order in which the per-account getters are compared after every step (0 = as written): a getter
+	// that answers from a private cache may only be wrong until another getter refreshes it
+	Order uint64 `json:"order,omitempty"`
 }
 
 const c03Pool = 6
@@ -196,7 +199,7 @@ func readModel(c *chain.Chain, ctx sdk.Context) *mState {
 }
 
 func genC03a(t *rapid.T) c03aCase {
-	cs := c03aCase{Commit: rapid.Bool().Draw(t, "commit")}
+	cs := c03aCase{Commit: rapid.Bool().Draw(t, "commit"), Order: rapid.Uint64Range(0, 1<<20).Draw(t, "order")}
 	n := rapid.IntRange(1, 40).Draw(t, "nops")
 	ops := []string{"addbal", "subbal", "setnonce", "setcode", "setstate", "clearstate", "suicide", "sd6780", "create", "addrefund", "subrefund",
 		"aladdr", "alslot", "log", "tset", "banksend", "foosend", "snapshot", "snapshot", "revert", "revert"}
@@ -240,41 +243,75 @@ func runC03a(cs c03aCase) *Outcome {
 		for i := 0; i < c03Pool; i++ {
 			addr := c03Addr(i)
 			m := cur.Accts[i]
-			if got := sdb.GetBalance(addr); got.Uint64() != m.Bal {
-				bad("GetBalance(%d)=%s model %d", i, got, m.Bal)
-			}
-			if got := c.App.BankKeeper.GetBalance(ctx, addr.Bytes(), chain.SecondDenom).Amount.Uint64(); got != m.Foo {
-				bad("second-denom balance(%d)=%d model %d", i, got, m.Foo)
-			}
-			if got := sdb.GetNonce(addr); got != m.Nonce {
-				bad("GetNonce(%d)=%d model %d", i, got, m.Nonce)
-			}
-			if got := sdb.GetCode(addr); !bytes.Equal(got, m.Code) {
-				bad("GetCode(%d)=%x model %x", i, got, m.Code)
-			}
 			wantHash := common.Hash{}
 			if m.HasCode {
 				wantHash = crypto.Keccak256Hash(m.Code)
 			} else if m.Exists {
 				wantHash = common.BytesToHash(evmtypes.EmptyCodeHash)
 			}
-			if got := sdb.GetCodeHash(addr); got != wantHash {
-				bad("GetCodeHash(%d)=%s model %s", i, got.Hex(), wantHash.Hex())
+			getters := []func(){
+				func() {
+					if got := sdb.GetBalance(addr); got.Uint64() != m.Bal {
+						bad("GetBalance(%d)=%s model %d", i, got, m.Bal)
+					}
+				},
+				func() {
+					if got := c.App.BankKeeper.GetBalance(ctx, addr.Bytes(), chain.SecondDenom).Amount.Uint64(); got != m.Foo {
+						bad("second-denom balance(%d)=%d model %d", i, got, m.Foo)
+					}
+				},
+				func() {
+					if got := sdb.GetNonce(addr); got != m.Nonce {
+						bad("GetNonce(%d)=%d model %d", i, got, m.Nonce)
+					}
+				},
+				func() {
+					if got := sdb.GetCode(addr); !bytes.Equal(got, m.Code) {
+						bad("GetCode(%d)=%x model %x", i, got, m.Code)
+					}
+				},
+				func() {
+					if got := sdb.GetCodeHash(addr); got != wantHash {
+						bad("GetCodeHash(%d)=%s model %s", i, got.Hex(), wantHash.Hex())
+					}
+				},
+				func() {
+					if got := sdb.GetCodeSize(addr); got != len(m.Code) {
+						bad("GetCodeSize(%d)=%d model %d", i, got, len(m.Code))
+					}
+				},
+				func() {
+					if got := sdb.Exist(addr); got != (m.Exists || cur.Suicided[i]) {
+						bad("Exist(%d)=%v model %v", i, got, m.Exists || cur.Suicided[i])
+					}
+				},
+				func() {
+					if got := sdb.Empty(addr); got != m.empty() {
+						bad("Empty(%d)=%v model %v", i, got, m.empty())
+					}
+				},
+				func() {
+					if got := sdb.HasSuicided(addr); got != cur.Suicided[i] {
+						bad("HasSuicided(%d)=%v model %v", i, got, cur.Suicided[i])
+					}
+				},
+				func() {
+					if got := sdb.AddressInAccessList(addr); got != cur.ALAddr[i] {
+						bad("AddressInAccessList(%d)=%v model %v", i, got, cur.ALAddr[i])
+					}
+				},
 			}
-			if got := sdb.GetCodeSize(addr); got != len(m.Code) {
-				bad("GetCodeSize(%d)=%d model %d", i, got, len(m.Code))
+			if cs.Order != 0 {
+				// deterministic Fisher-Yates driven by the case's order seed, the step and the account
+				x := cs.Order*6364136223846793005 + uint64(step+2)*1442695040888963407 + uint64(i)
+				for n := len(getters) - 1; n > 0; n-- {
+					x = x*6364136223846793005 + 1442695040888963407
+					j := int((x >> 33) % uint64(n+1))
+					getters[n], getters[j] = getters[j], getters[n]
+				}
 			}
-			if got := sdb.Exist(addr); got != (m.Exists || cur.Suicided[i]) {
-				bad("Exist(%d)=%v model %v", i, got, m.Exists || cur.Suicided[i])
-			}
-			if got := sdb.Empty(addr); got != m.empty() {
-				bad("Empty(%d)=%v model %v", i, got, m.empty())
-			}
-			if got := sdb.HasSuicided(addr); got != cur.Suicided[i] {
-				bad("HasSuicided(%d)=%v model %v", i, got, cur.Suicided[i])
-			}
-			if got := sdb.AddressInAccessList(addr); got != cur.ALAddr[i] {
-				bad("AddressInAccessList(%d)=%v model %v", i, got, cur.ALAddr[i])
+			for _, g := range getters {
+				g()
 			}
 			for k := 0; k < 4; k++ {
 				if got := sdb.GetState(addr, c03Slot(k)).Big().Uint64(); got != m.Storage[k] {
